@@ -145,87 +145,67 @@ theorem dump_value_inert (v out : List Char) (h : dumpValue v = .ok out) :
 example : (match dumpValue "a;b\"c é".toList with
     | .ok r => r == "\"a\\073b\\\"c \\303\\251\"".toList | .error _ => false) = true := by decide +kernel
 
-/-- Names for which the round trip is claimed: non-empty, without `=`, `;` or white space
-(a superset of RFC 6265 tokens). -/
-def ValidKey (k : List Char) : Prop := k ≠ [] ∧ k.all keyChar = true
-
-/-- **Round trip.** For every valid name and every Unicode value, parsing the emitted pair as a
-request `Cookie` header (sans-io parser) returns exactly that name and value. -/
+/-- **Round trip.** For every valid name (non-empty, no `=`, `;`, white space — a superset of RFC 6265
+tokens) and every Unicode value, parsing the emitted pair as a request `Cookie` header (sans-io
+parser) returns exactly that name and value. -/
 theorem cookie_roundtrip (k v hv : List Char) (hk : ValidKey k) (h : dumpValue v = .ok hv) :
     parseCookie (k ++ '=' :: hv) = [(k, v)] := by
-  obtain ⟨hne, hkc⟩ := hk
+  obtain ⟨hm, hu⟩ := pair_facts k v hv hk h
   have hcookie : (k ++ '=' :: hv).isEmpty = false := by cases k <;> simp
-  have hkstrip : Py.strip k = k := by
-    apply strip_id
-    · intro c hc
-      have : c ∈ k := List.mem_of_mem_head? hc
-      have := List.all_eq_true.mp hkc c this
-      simp only [keyChar, Bool.and_eq_true, Bool.not_eq_true'] at this
-      exact this.2
-    · intro c hc
-      have : c ∈ k := List.mem_of_getLast? hc
-      have := List.all_eq_true.mp hkc c this
-      simp only [keyChar, Bool.and_eq_true, Bool.not_eq_true'] at this
-      exact this.2
-  have hkne : (Py.strip k).isEmpty = false := by rw [hkstrip]; cases k <;> simp_all
   unfold parseCookie
   rw [if_neg (by simp [hcookie])]
-  by_cases hq : v.all noQuoteChar = true
-  · -- unquoted
-    have hdv : dumpValue v = .ok v := by simp [dumpValue, hq]
-    rw [hdv] at h
-    obtain rfl := Except.ok.inj h
-    have hf := fun c hc => noQuoteChar_facts c (List.all_eq_true.mp hq c hc)
-    have hm : matchOne (k ++ '=' :: v ++ [';']) = some (k, v, []) :=
-      matchOne_plain k v hkc (fun c hc => (hf c hc).2.2.2.1)
-        (fun c hc => ⟨(hf c (List.mem_of_mem_head? hc)).2.2.2.2, (hf c (List.mem_of_mem_head? hc)).2.2.1⟩)
-        (fun c hc => (hf c (List.mem_of_getLast? hc)).2.2.1)
-    have hs : (k ++ '=' :: v) ++ [';'] = k ++ '=' :: v ++ [';'] := by simp
-    simp only [hs]
-    rw [findAll_single _ k v hm (by cases k <;> simp)]
-    have hvstrip : Py.strip v = v :=
-      strip_id v (fun c hc => (hf c (List.mem_of_mem_head? hc)).2.1)
-        (fun c hc => (hf c (List.mem_of_getLast? hc)).2.1)
-    simp only [List.filterMap_cons, List.filterMap_nil, hkstrip, hvstrip]
-    rw [if_neg (by cases k <;> simp_all)]
-    rw [unquote_plain v (fun c hc => (hf c hc).2.2.2.2)]
-  · -- quoted
-    have hq' : v.all noQuoteChar = false := by simpa using hq
-    rw [dumpValue_quoted v hq'] at h
-    obtain rfl := Except.ok.inj h
-    have hns : ∀ n ∈ (utf8Enc v).map UInt8.toNat, n < 256 := by
-      intro n hn
-      simp only [List.mem_map] at hn
-      obtain ⟨b, _, rfl⟩ := hn
-      exact b.toNat_lt
-    have hm := matchOne_quoted k _ hkc hns
-    have hs : (k ++ '=' :: ('"' :: ((utf8Enc v).map UInt8.toNat).flatMap escChars ++ ['"'])) ++ [';'] =
-        k ++ '=' :: ('"' :: ((utf8Enc v).map UInt8.toNat).flatMap escChars ++ ['"']) ++ [';'] := by simp
-    simp only [hs]
-    rw [findAll_single _ k _ hm (by cases k <;> simp)]
-    have hvstrip : Py.strip ('"' :: ((utf8Enc v).map UInt8.toNat).flatMap escChars ++ ['"']) =
-        '"' :: ((utf8Enc v).map UInt8.toNat).flatMap escChars ++ ['"'] := by
-      apply strip_id
-      · intro c hc
-        simp only [List.cons_append, List.head?_cons, Option.some.injEq] at hc
-        subst hc; decide
-      · intro c hc
-        have : ('"' :: (((utf8Enc v).map UInt8.toNat).flatMap escChars ++ ['"'])).getLast? = some '"' := by
-          rw [← List.cons_append, List.getLast?_append]; simp
-        simp only [List.cons_append] at hc
-        rw [this] at hc
-        obtain rfl := Option.some.inj hc
-        decide
-    simp only [List.filterMap_cons, List.filterMap_nil, hkstrip, hvstrip]
-    rw [if_neg (by cases k <;> simp_all)]
-    rw [unquote_quoted, Py.decodeReplace_utf8Enc]
+  have hs : (k ++ '=' :: hv) ++ [';'] = k ++ '=' :: hv ++ ';' :: [] := by simp
+  have hm' := hm []
+  simp only [List.dropWhile] at hm'
+  rw [hs, findAll_single _ k hv hm' (by cases k <;> simp)]
+  simp only [postProcess, List.filterMap_cons, List.filterMap_nil, strip_key k hk.2, hu]
+  rw [if_neg (by cases k <;> simp_all [ValidKey])]
 
 /-- the hypotheses of `cookie_roundtrip` are satisfiable, for a value that needs every kind of escape -/
 example : ValidKey "sid".toList ∧ ∃ hv, dumpValue "a;b\"c\\ é\x00".toList = .ok hv :=
   ⟨⟨by decide, by decide⟩, dump_value_total _⟩
 
-/-- The pair also survives in the middle of a jar header: other cookies before it do not disturb
-it (the scanner consumes whole `name=value;` units). Stated for one preceding pair. -/
+/-- **Round trip through a jar.** For every non-empty list of cookies (valid names, arbitrary
+Unicode values), the `Cookie:` header a client builds by joining the emitted pairs with `; `
+parses back to exactly those names and values, in order: no value can end its pair, swallow a
+neighbour or inject one. -/
+theorem jar_roundtrip (items : List (List Char × List Char × List Char)) (hne : items ≠ [])
+    (h : ∀ it ∈ items, ValidKey it.1 ∧ dumpValue it.2.1 = .ok it.2.2) :
+    parseCookie (jarText (items.map fun it => (it.1, it.2.2))) = items.map fun it => (it.1, it.2.1) := by
+  have hl : (items.map fun it => (it.1, it.2.2)) ≠ [] := by cases items <;> simp_all
+  have hg : ∀ p ∈ (items.map fun it => (it.1, it.2.2)), ScanGood p := by
+    intro p hp
+    simp only [List.mem_map] at hp
+    obtain ⟨it, hit, rfl⟩ := hp
+    obtain ⟨hk, hd⟩ := h it hit
+    exact ⟨hk, (pair_facts it.1 it.2.1 it.2.2 hk hd).1⟩
+  have hnonempty : (jarText (items.map fun it => (it.1, it.2.2))).isEmpty = false := by
+    cases items with
+    | nil => exact absurd rfl hne
+    | cons it t =>
+      obtain ⟨hk, _⟩ := h it (by simp)
+      cases t <;> (simp only [List.map_cons, List.map_nil, jarText]; cases hkk : it.1 <;> simp_all [ValidKey])
+  unfold parseCookie
+  rw [if_neg (by simp [hnonempty])]
+  rw [findAll_jar _ hl hg _ (by
+    have := jarText_length (items.map fun it => (it.1, it.2.2))
+    simp only [List.length_append, List.length_cons, List.length_nil] at this ⊢
+    omega)]
+  clear hl hg hnonempty hne
+  induction items with
+  | nil => rfl
+  | cons it t ih =>
+    obtain ⟨hk, hd⟩ := h it (by simp)
+    have hu := (pair_facts it.1 it.2.1 it.2.2 hk hd).2
+    simp only [postProcess, List.map_cons, List.filterMap_cons, strip_key it.1 hk.2, hu]
+    rw [if_neg (by obtain ⟨hne', _⟩ := hk; cases hkk : it.1 <;> simp_all)]
+    simp only [List.cons.injEq, true_and]
+    exact ih (fun it' hit' => h it' (by simp [hit']))
+
+example : jarText [("a".toList, "1".toList), ("sid".toList, "\"x\\073y\"".toList)] = "a=1; sid=\"x\\073y\"".toList := by
+  decide
+
+/-- a concrete jar header, end to end through the executable model -/
 theorem cookie_roundtrip_concrete :
     parseCookie "a=1; sid=\"x\\073 Secure\"; z=2".toList =
       [("a".toList, "1".toList), ("sid".toList, "x; Secure".toList), ("z".toList, "2".toList)] := by
